@@ -1076,7 +1076,11 @@ class Run:
         ref = self.reference(step)
         if ref is None:
             self.stats['ref_unavailable'] += 1
+            k = 'ref_unavailable_' + fmt
+            self.stats[k] = self.stats.get(k, 0) + 1
             return
+        k = 'readback_steps_' + fmt
+        self.stats[k] = self.stats.get(k, 0) + 1
         import sim.fingerprint as F
         ref_c = F.canon_value(ref)
         with open(os.path.join(self.disk, dest_rel), 'rb') as fh:
